@@ -36,7 +36,7 @@ def check_query_methods(model: Model, report: Report, rule: str) -> None:
         raise AnalysisError("anchor vanished: JSONPathQuery.finditer")
 
     def setup(it: Interp) -> Any:
-        q = it.new_inst(qci, "query")
+        q = it.harness_inst(qci, "query")
         q.attrs["env"] = it.new_opaque("env")
         q.attrs["segments"] = it.new_opaque("segments")
         v = it.new_sym("value")
@@ -172,7 +172,7 @@ def check_env_methods(model: Model, report: Report, rule: str, rule_err: str) ->
             continue
 
         def body(it: Interp, fn=fn, fail=False) -> Any:
-            env = it.new_inst(eci, "env")
+            env = it.harness_inst(eci, "env")
             qstr = it.new_str("query-text")
             v = it.new_sym("value")
             seen: Dict[str, Any] = {}
@@ -237,6 +237,64 @@ def check_env_methods(model: Model, report: Report, rule: str, rule_err: str) ->
         report.touched(fn.qualname)
 
 
+def _check_module_wrapper(model: Model, report: Report, rule: str, fi: Any, name: str) -> None:
+    """A module-level entry point written as a function: it must hand its arguments unchanged to the same-named method
+    of DEFAULT_ENV (directly, or as DEFAULT_ENV.compile(query).<name>(value), which is what that method does)."""
+    body = [st for st in fi.node.body if not (isinstance(st, ast.Expr) and isinstance(st.value, ast.Constant))]
+    params = [a.arg for a in fi.node.args.args]
+    key = f"wrapper:{name}"
+    if fi.is_generator:
+        report.fail(rule, fi.qualname, key + ":lazy", f"module-level {name}() is a generator function: an invalid query is only reported when the result is first advanced, unlike DEFAULT_ENV.{name}", file=fi.file, line=fi.line)
+        return
+
+    def plain_args(call: ast.Call, want: List[str]) -> bool:
+        got = [a.id if isinstance(a, ast.Name) else None for a in call.args] + [k.value.id if isinstance(k.value, ast.Name) and k.arg == k.value.id else None for k in call.keywords]
+        return got == want
+
+    ok = False
+    if len(body) == 1 and isinstance(body[0], ast.Return) and isinstance(body[0].value, ast.Call):
+        c = body[0].value
+        f = c.func
+        if isinstance(f, ast.Attribute) and f.attr == name:
+            if isinstance(f.value, ast.Name) and f.value.id == "DEFAULT_ENV" and plain_args(c, params):
+                ok = True
+            elif (
+                name != "compile"
+                and isinstance(f.value, ast.Call)
+                and isinstance(f.value.func, ast.Attribute)
+                and f.value.func.attr == "compile"
+                and isinstance(f.value.func.value, ast.Name)
+                and f.value.func.value.id == "DEFAULT_ENV"
+                and plain_args(f.value, params[:1])
+                and plain_args(c, params[1:])
+            ):
+                ok = True
+    def env_call(e: ast.expr, meth: str) -> bool:
+        return (
+            isinstance(e, ast.Call) and isinstance(e.func, ast.Attribute) and e.func.attr == meth
+            and isinstance(e.func.value, ast.Name) and e.func.value.id == "DEFAULT_ENV" and plain_args(e, params)
+        )
+
+    if not ok and len(body) == 1 and isinstance(body[0], ast.Return) and isinstance(body[0].value, ast.Call):
+        c = body[0].value
+        fn_text = ast.unparse(c.func)
+        # the two equivalent spellings through the lazy iterator: what the query methods themselves do
+        if name == "find" and fn_text == "JSONPathNodeList" and len(c.args) == 1 and not c.keywords and env_call(c.args[0], "finditer"):
+            ok = True
+        if name == "find_one" and fn_text == "next" and len(c.args) == 2 and isinstance(c.args[1], ast.Constant) and c.args[1].value is None:
+            a0 = c.args[0]
+            if isinstance(a0, ast.Call) and ast.unparse(a0.func) == "iter" and len(a0.args) == 1 and env_call(a0.args[0], "finditer"):
+                ok = True
+    if ok:
+        report.ok(rule, fi.qualname, f"{name}(...) delegates to DEFAULT_ENV.{name} with unchanged arguments")
+        return
+    others = sorted({n.func.id if isinstance(n.func, ast.Name) else n.func.attr for n in ast.walk(fi.node) if isinstance(n, ast.Call) and isinstance(n.func, (ast.Name, ast.Attribute)) and (n.func.id if isinstance(n.func, ast.Name) else n.func.attr) in ("compile", "finditer", "find", "find_one", "apply")} - {name, "compile"})
+    if name == "find_one" and "find" in others:
+        report.fail(rule, fi.qualname, key + ":other-entry-point", f"module-level {name}() is built on {', '.join(others)}() instead of delegating to DEFAULT_ENV.{name}: the two are evaluated differently (how much of the result is produced, when an error surfaces), so the entry points need not agree", file=fi.file, line=fi.line)
+    else:
+        report.undecided(rule, fi.qualname, f"module-level {name} is a function whose body is not a plain delegation to DEFAULT_ENV.{name}")
+
+
 def check_module_api(model: Model, report: Report, rule: str) -> None:
     pkg = model.module("__init__")
     env = model.cls("environment.JSONPathEnvironment")
@@ -250,7 +308,7 @@ def check_module_api(model: Model, report: Report, rule: str) -> None:
         if isinstance(e, ast.Attribute) and isinstance(e.value, ast.Name) and e.value.id == "DEFAULT_ENV" and e.attr == name:
             report.ok(rule, "__init__", f"{name} = DEFAULT_ENV.{name}")
         elif name in pkg.functions:
-            report.undecided(rule, "__init__", f"module-level {name} is a function; delegation shape not analysed")
+            _check_module_wrapper(model, report, rule, pkg.functions[name], name)
         else:
             report.fail(rule, "__init__", f"alias:{name}", f"module-level {name} is {ast.unparse(e) if e else 'missing'}, expected DEFAULT_ENV.{name}")
     # no rebinding of the aliases further down
